@@ -1,11 +1,22 @@
 // Unit c50_encapsulation -- property C50 "Objects are encapsulated by their blueprint"
 use vstd::prelude::*;
+/// sbor `btreemap!` (sbor/src/rust.rs): a BTreeMap built by successive inserts
+macro_rules! btreemap {
+    ( $($key:expr => $value:expr),* $(,)? ) => {{
+        let mut temp = btree_map_new();
+        $( temp.insert($key, $value); )*
+        temp
+    }};
+}
 verus! {
 /*@include shims/rt.rs @*/
+/*@include shims/c35_ordered_indexmap.rs @*/
 
 pub mod env {
     use vstd::prelude::*;
-    use super::unit::{Actor, ObjectInfo, BlueprintId, SystemService};
+    use super::unit::{Actor, ObjectInfo, BlueprintId, SystemService, InstanceContext, AttachedModuleId, ModuleId};
+    pub use super::omap::IndexMap;
+    use super::omap::has_key;
 
     // ---- addresses ----------------------------------------------------------------------------------
     /// radix-common NodeId(pub [u8; NodeId::LENGTH]), LENGTH = 30
@@ -77,16 +88,137 @@ pub mod env {
     #[verifier::external_body]
     #[verifier::reject_recursive_types(T)]
     pub struct IndexSet<T> { x: core::marker::PhantomData<T> }
+    /// what shims/c35_ordered_indexmap.rs lacks (indexmap docs: `contains_key` = some entry has an equal key;
+    /// `keys()` iterates the keys in insertion order; radix-rust `index_map_new()` = empty map)
+    impl<K, V> IndexMap<K, V> {
+        #[verifier::external_body]
+        pub fn contains_key(&self, key: &K) -> (r: bool) ensures r == has_key(self.entries(), *key) { unimplemented!() }
+    }
+    #[verifier::external_body]
+    pub fn index_map_new<K, V>() -> (r: IndexMap<K, V>) ensures r.entries() == Seq::<(K, V)>::empty() { unimplemented!() }
+
+    /// std BTreeMap, as a map (ASSUMED: documented behaviour of new / get / insert)
     #[verifier::external_body]
     #[verifier::reject_recursive_types(K)]
     #[verifier::reject_recursive_types(V)]
-    pub struct IndexMap<K, V> { x: core::marker::PhantomData<(K, V)> }
+    pub struct BTreeMap<K, V> { x: core::marker::PhantomData<(K, V)> }
+    impl<K, V> BTreeMap<K, V> {
+        pub uninterp spec fn view(&self) -> Map<K, V>;
+        #[verifier::external_body]
+        pub fn get(&self, key: &K) -> (r: Option<&V>)
+            ensures match r { Some(v) => self@.contains_key(*key) && *v == self@[*key], None => !self@.contains_key(*key) }
+        { unimplemented!() }
+        #[verifier::external_body]
+        pub fn insert(&mut self, key: K, value: V) -> (r: Option<V>)
+            ensures final(self)@ == old(self)@.insert(key, value)
+        { unimplemented!() }
+    }
+    #[verifier::external_body]
+    pub fn btree_map_new<K, V>() -> (r: BTreeMap<K, V>) ensures r@ == Map::<K, V>::empty() { unimplemented!() }
     #[verifier::external_body]
     pub struct BlueprintHook { x: u8 }
     #[verifier::external_body]
     pub struct KeyValueStoreInfo { x: u8 }
+    // ---- substates, partitions ------------------------------------------------------------------------
+    #[derive(Clone, Copy)]
+    pub struct PartitionNumber(pub u8);
+    #[derive(Clone, Copy)]
+    pub struct PartitionOffset(pub u8);
+    pub const TYPE_INFO_FIELD_PARTITION: PartitionNumber = /*@expr-after radix-engine-interface/src/types/node_layout.rs :: const TYPE_INFO_FIELD_PARTITION :: <<PartitionNumber =>> @*/;
+    pub const SCHEMAS_PARTITION: PartitionNumber = /*@expr-after radix-engine-interface/src/types/node_layout.rs :: const SCHEMAS_PARTITION :: <<PartitionNumber =>> @*/;
+    pub const METADATA_BASE_PARTITION: PartitionNumber = /*@expr-after radix-engine-interface/src/types/node_layout.rs :: const METADATA_BASE_PARTITION :: <<PartitionNumber =>> @*/;
+    pub const ROYALTY_BASE_PARTITION: PartitionNumber = /*@expr-after radix-engine-interface/src/types/node_layout.rs :: const ROYALTY_BASE_PARTITION :: <<PartitionNumber =>> @*/;
+    pub const ROLE_ASSIGNMENT_BASE_PARTITION: PartitionNumber = /*@expr-after radix-engine-interface/src/types/node_layout.rs :: const ROLE_ASSIGNMENT_BASE_PARTITION :: <<PartitionNumber =>> @*/;
+    pub const MAIN_BASE_PARTITION: PartitionNumber = /*@expr-after radix-engine-interface/src/types/node_layout.rs :: const MAIN_BASE_PARTITION :: <<PartitionNumber =>> @*/;
+    pub enum SubstateKey { Field(u8), Map(Vec<u8>), Sorted(([u8; 2], Vec<u8>)) }
+    pub enum TypeInfoField { TypeInfo }
+    /// node_layout.rs: TypeInfoField::TypeInfo is field 0 of the type-info partition
+    impl From<TypeInfoField> for SubstateKey {
+        fn from(value: TypeInfoField) -> (r: Self) ensures r == SubstateKey::Field(0u8) { SubstateKey::Field(0u8) }
+    }
+    impl vstd::std_specs::convert::FromSpecImpl<TypeInfoField> for SubstateKey {
+        open spec fn obeys_from_spec() -> bool { true }
+        open spec fn from_spec(value: TypeInfoField) -> Self { SubstateKey::Field(0u8) }
+    }
+    pub type SubstateHandle = u32;
+    pub type SubstateId = (NodeId, PartitionNumber, SubstateKey);
+    pub struct Own(pub NodeId);
+    impl Own { pub fn as_node_id(&self) -> (r: &NodeId) ensures *r == self.0 { &self.0 } }
+    pub struct GlobalAddressReservation(pub Own);
+    impl From<GlobalAddress> for NodeId {
+        fn from(value: GlobalAddress) -> (r: Self) ensures r == value.0 { value.0 }
+    }
+    impl vstd::std_specs::convert::FromSpecImpl<GlobalAddress> for NodeId {
+        open spec fn obeys_from_spec() -> bool { true }
+        open spec fn from_spec(value: GlobalAddress) -> Self { value.0 }
+    }
+
+    // ---- SBOR, uninterpreted: `dec::<T>(bytes)` is what decoding `bytes` as a T yields ----------------
+    pub uninterp spec fn dec<T>(b: Seq<u8>) -> Option<T>;
+    pub struct DecodeError;
+    #[verifier::external]
+    impl core::fmt::Debug for DecodeError { fn fmt(&self, f: &mut core::fmt::Formatter<'_>) -> core::fmt::Result { f.write_str("DecodeError") } }
     #[verifier::external_body]
-    pub struct DroppedNode { x: u8 }
+    pub struct IndexedScryptoValue { x: Vec<u8> }
+    impl IndexedScryptoValue {
+        pub uninterp spec fn bytes(self) -> Seq<u8>;
+        #[verifier::external_body]
+        pub fn from_typed<T>(value: &T) -> (r: Self) ensures dec::<T>(r.bytes()) == Some(*value) { unimplemented!() }
+        #[verifier::external_body]
+        pub fn as_typed<T>(&self) -> (r: Result<T, DecodeError>)
+            ensures match dec::<T>(self.bytes()) { Some(t) => r == Ok::<T, DecodeError>(t), None => r is Err }
+        { unimplemented!() }
+    }
+    pub open spec fn ti_of(v: IndexedScryptoValue) -> Option<TypeInfoSubstate> { dec::<TypeInfoSubstate>(v.bytes()) }
+
+    pub type NodeSubstates = BTreeMap<PartitionNumber, BTreeMap<SubstateKey, IndexedScryptoValue>>;
+    /// kernel_api.rs
+    pub struct DroppedNode { pub substates: NodeSubstates, pub pinned_to_heap: bool }
+    /// the type info a dropped node carried
+    pub open spec fn dropped_type_info(d: DroppedNode) -> Option<TypeInfoSubstate> {
+        if d.substates@.contains_key(TYPE_INFO_FIELD_PARTITION) && d.substates@[TYPE_INFO_FIELD_PARTITION]@.contains_key(SubstateKey::Field(0u8)) {
+            ti_of(d.substates@[TYPE_INFO_FIELD_PARTITION]@[SubstateKey::Field(0u8)])
+        } else { None }
+    }
+
+    #[derive(Clone, Copy)]
+    pub struct LockFlags { pub bits: u32 }
+    impl LockFlags { pub const MUTABLE: LockFlags = LockFlags { bits: 1 }; }
+    /// system_callback.rs SystemLockData without the payloads (only `Default` is constructed by the code under contract)
+    pub enum SystemLockData { KeyValueEntry, Field, Default }
+
+    // ---- system state reachable through kernel_get_system_state().system (not part of the ghost state) ----
+    #[verifier::external_body]
+    pub struct SystemModuleMixer { x: u8 }
+    impl SystemModuleMixer {
+        /// execution-trace bookkeeping only
+        #[verifier::external_body]
+        pub fn add_replacement(&mut self, from: (NodeId, ModuleId), to: (NodeId, ModuleId)) { unimplemented!() }
+    }
+    pub struct System { pub modules: SystemModuleMixer }
+
+    // ---- blueprint definitions ---------------------------------------------------------------------------
+    #[verifier::external_body]
+    pub struct IndexedStateSchema { x: u8 }
+    impl IndexedStateSchema {
+        pub uninterp spec fn n_logical(&self) -> u8;
+        /// ASSUMED: an installed blueprint definition has at most 192 logical partitions, so that
+        /// MAIN_BASE_PARTITION (64) + offset and module base + offset do not overflow u8 (the real code unwraps
+        /// `at_offset`; the panic would be caught and turned into an error -- it aborts, it grants nothing)
+        #[verifier::external_body]
+        pub fn num_logical_partitions(&self) -> (r: u8) ensures r == self.n_logical(), r <= 192 { unimplemented!() }
+    }
+    pub struct BlueprintInterface { pub is_transient: bool, pub state: IndexedStateSchema }
+    pub struct BlueprintDefinition { pub interface: BlueprintInterface }
+    impl<'a, Y: SystemBasedKernelApi> SystemService<'a, Y> {
+        /// system.rs, not under contract: loads the definition from the package (cache / substate reads). ASSUMED: no effect on the ghost state.
+        #[verifier::external_body]
+        pub fn get_blueprint_default_definition(&mut self, blueprint_id: BlueprintId) -> (r: Result<std::rc::Rc<BlueprintDefinition>, RuntimeError>)
+            ensures final(self).api.st() == old(self).api.st(),
+                    *final(final(self).api) == *final(old(self).api),
+                    r matches Err(e) ==> e is Environment,
+        { unimplemented!() }
+    }
 
     /// radix-engine/src/errors.rs error_models::ReferencedNodeId(pub NodeId)
     pub mod error_models {
@@ -117,6 +249,16 @@ pub mod env {
     pub enum SystemError {
         NotAnObject,
         InvalidDropAccess(Box<super::unit::InvalidDropAccess>),
+        InvalidActorStateHandle,
+        InvalidGlobalAddressReservation,
+        NotAnAddressReservation,
+        InvalidGlobalizeAccess(Box<super::unit::InvalidGlobalizeAccess>),
+        MissingModule(ModuleId),
+        CannotGlobalize(super::unit::CannotGlobalizeError),
+        GlobalizingTransientBlueprint,
+        InvalidModuleType(Box<super::unit::InvalidModuleType>),
+        OuterObjectDoesNotExist,
+        NoPackageAddress,
         Other,
     }
 
@@ -126,10 +268,15 @@ pub mod env {
         pub type_info: Map<NodeId, TypeInfoSubstate>,
         /// the actor of the current call frame (fixed during a system call)
         pub actor: Actor,
+        /// open substate handles
+        pub handles: Map<SubstateHandle, SubstateId>,
+        /// nodes whose partitions were moved into a global node by kernel_create_node_from (empty shells)
+        pub consumed: Set<NodeId>,
     }
 
-    /// kernel_api.rs SystemState, reduced to the call-frame data (the `system` field is not used by the code under contract)
+    /// kernel_api.rs SystemState, with M = System
     pub struct SystemState<'a> {
+        pub system: &'a mut System,
         pub current_call_frame: &'a Actor,
         pub caller_call_frame: &'a Actor,
     }
@@ -189,28 +336,48 @@ pub mod env {
             }
         }
     }
+    /// the kernel drops an OBJECT only for an actor that C50 allows to drop it -- or when the node is the empty shell
+    /// left behind by a (permitted) globalization. Non-objects (address reservations, ..) cannot be named in
+    /// `drop_object` (NotAnObject); the system drops a reservation when it is consumed by globalize.
     pub open spec fn drop_permitted(s: KState, node_id: NodeId) -> bool {
-        s.type_info.contains_key(node_id) ==> match s.type_info[node_id] {
+        s.consumed.contains(node_id) || (s.type_info.contains_key(node_id) ==> match s.type_info[node_id] {
             TypeInfoSubstate::Object(info) => allowed_drop(info, s.actor),
             _ => true,
-        }
+        })
+    }
+    pub open spec fn actor_package(a: Actor) -> Option<PackageAddress> {
+        match running_blueprint(a) { Some(id) => Some(id.package_address), None => None }
+    }
+    pub open spec fn is_module_blueprint(id: BlueprintId) -> bool {
+        id == module_blueprint(AttachedModuleId::Metadata) || id == module_blueprint(AttachedModuleId::Royalty) || id == module_blueprint(AttachedModuleId::RoleAssignment)
+    }
+    /// C50, globalize: a node's partitions may be moved into a global node only if the node is a not yet global object
+    /// of the RUNNING CODE'S PACKAGE ("only the package can globalize a node", system.rs) or an object of one of the
+    /// three object-module blueprints (Metadata / Royalty / RoleAssignment -- these exist to be attached by their holder)
+    pub open spec fn globalize_source_ok(s: KState, n: NodeId) -> bool {
+        s.type_info.contains_key(n) && (s.type_info[n] matches TypeInfoSubstate::Object(info)
+            && ((info.object_type is Owned && Some(info.blueprint_info.blueprint_id.package_address) == actor_package(s.actor))
+                || is_module_blueprint(info.blueprint_info.blueprint_id)))
+    }
+    pub open spec fn globalize_permitted(s: KState, partitions: Map<PartitionNumber, (NodeId, PartitionNumber)>) -> bool {
+        forall|p: PartitionNumber| #[trigger] partitions.contains_key(p) ==> globalize_source_ok(s, partitions[p].0)
+    }
+    pub open spec fn same_but_handles(s0: KState, s1: KState) -> bool {
+        s1.type_info == s0.type_info && s1.actor == s0.actor && s1.consumed == s0.consumed
     }
 
-    #[derive(Clone, Copy)]
-    pub enum AttachedModuleId { Metadata, Royalty, RoleAssignment }
-    #[derive(Clone, Copy)]
-    pub enum ModuleId { Main, Metadata, Royalty, RoleAssignment }
     pub const METADATA_MODULE_PACKAGE: PackageAddress = PackageAddress(NodeId(/*@expr-after radix-common/src/constants/native_addresses.rs :: const METADATA_MODULE_PACKAGE :: <<new_or_panic(>> @*/));
     pub const ROYALTY_MODULE_PACKAGE: PackageAddress = PackageAddress(NodeId(/*@expr-after radix-common/src/constants/native_addresses.rs :: const ROYALTY_MODULE_PACKAGE :: <<new_or_panic(>> @*/));
     pub const ROLE_ASSIGNMENT_MODULE_PACKAGE: PackageAddress = PackageAddress(NodeId(/*@expr-after radix-common/src/constants/native_addresses.rs :: const ROLE_ASSIGNMENT_MODULE_PACKAGE :: <<new_or_panic(>> @*/));
-    pub const METADATA_BLUEPRINT: &'static str = "Metadata";
-    pub const COMPONENT_ROYALTY_BLUEPRINT: &'static str = "ComponentRoyalty";
-    pub const ROLE_ASSIGNMENT_BLUEPRINT: &'static str = "RoleAssignment";
+    pub const METADATA_BLUEPRINT: &'static str = /*@expr-after radix-engine-interface/src/object_modules/metadata/invocations.rs :: const METADATA_BLUEPRINT :: <<&str =>> @*/;
+    pub const COMPONENT_ROYALTY_BLUEPRINT: &'static str = /*@expr-after radix-engine-interface/src/object_modules/royalty/invocations.rs :: const COMPONENT_ROYALTY_BLUEPRINT :: <<&str =>> @*/;
+    pub const ROLE_ASSIGNMENT_BLUEPRINT: &'static str = /*@expr-after radix-engine-interface/src/object_modules/role_assignment/invocations.rs :: const ROLE_ASSIGNMENT_BLUEPRINT :: <<&str =>> @*/;
 
     /// The kernel as seen by the system layer (kernel_api.rs KernelNodeApi / KernelInternalApi).
     pub trait SystemBasedKernelApi: Sized {
         spec fn st(&self) -> KState;
 
+        /// the system-module state behind `.system` is disjoint from the ghost state
         fn kernel_get_system_state(&mut self) -> (r: SystemState<'_>)
             ensures *r.current_call_frame == old(self).st().actor, final(self).st() == old(self).st();
 
@@ -219,9 +386,92 @@ pub mod env {
             requires drop_permitted(old(self).st(), *node_id)
             ensures
                 final(self).st().actor == old(self).st().actor,
-                r is Ok ==> old(self).st().type_info.contains_key(*node_id)
-                    && final(self).st().type_info == old(self).st().type_info.remove(*node_id),
+                final(self).st().handles == old(self).st().handles,
+                final(self).st().consumed == old(self).st().consumed,
+                r matches Ok(d) ==> old(self).st().type_info.contains_key(*node_id)
+                    && final(self).st().type_info == old(self).st().type_info.remove(*node_id)
+                    && dropped_type_info(d) == Some(old(self).st().type_info[*node_id]),
                 r matches Err(e) ==> e is Environment && final(self).st() == old(self).st();
+
+        /// THE SENSITIVE CALLEE of globalize: its precondition is property C50 (globalize) itself.
+        fn kernel_create_node_from(&mut self, node_id: NodeId, partitions: BTreeMap<PartitionNumber, (NodeId, PartitionNumber)>) -> (r: Result<(), RuntimeError>)
+            requires globalize_permitted(old(self).st(), partitions@)
+            ensures
+                final(self).st().actor == old(self).st().actor,
+                final(self).st().handles == old(self).st().handles,
+                final(self).st().type_info == old(self).st().type_info,
+                r is Ok ==> (forall|n: NodeId| final(self).st().consumed.contains(n) <==> old(self).st().consumed.contains(n)
+                                || exists|p: PartitionNumber| #[trigger] partitions@.contains_key(p) && partitions@[p].0 == n),
+                r matches Err(e) ==> e is Environment && final(self).st() == old(self).st();
+
+        fn kernel_open_substate(&mut self, node_id: &NodeId, partition_num: PartitionNumber, substate_key: &SubstateKey,
+                flags: LockFlags, lock_data: SystemLockData) -> (r: Result<SubstateHandle, RuntimeError>)
+            ensures
+                same_but_handles(old(self).st(), final(self).st()),
+                r matches Ok(h) ==> !old(self).st().handles.contains_key(h)
+                    && final(self).st().handles == old(self).st().handles.insert(h, (*node_id, partition_num, *substate_key))
+                    && old(self).st().type_info.contains_key(*node_id),
+                r matches Err(e) ==> e is Environment && final(self).st() == old(self).st();
+
+        /// reading field 0 of the type-info partition of a node yields (the encoding of) what get_type returns for it
+        fn kernel_read_substate(&mut self, lock_handle: SubstateHandle) -> (r: Result<&IndexedScryptoValue, RuntimeError>)
+            ensures
+                final(self).st() == old(self).st(),
+                r matches Ok(v) ==> old(self).st().handles.contains_key(lock_handle)
+                    && ({ let id = old(self).st().handles[lock_handle];
+                          id.1 == TYPE_INFO_FIELD_PARTITION && id.2 == SubstateKey::Field(0u8) && old(self).st().type_info.contains_key(id.0)
+                            ==> ti_of(*v) == Some(old(self).st().type_info[id.0]) }),
+                r matches Err(e) ==> e is Environment;
+
+        fn kernel_close_substate(&mut self, lock_handle: SubstateHandle) -> (r: Result<(), RuntimeError>)
+            ensures
+                same_but_handles(old(self).st(), final(self).st()),
+                r is Ok ==> final(self).st().handles == old(self).st().handles.remove(lock_handle),
+                r matches Err(e) ==> e is Environment && final(self).st() == old(self).st();
+    }
+
+    pub type ActorStateHandle = u32;
+    pub const ACTOR_STATE_SELF: ActorStateHandle = /*@expr-after radix-engine-interface/src/api/mod.rs :: const ACTOR_STATE_SELF :: <<ActorStateHandle =>> @*/;
+    pub const ACTOR_STATE_OUTER_OBJECT: ActorStateHandle = /*@expr-after radix-engine-interface/src/api/mod.rs :: const ACTOR_STATE_OUTER_OBJECT :: <<ActorStateHandle =>> @*/;
+
+    // ---- new_object: arguments not looked at -----------------------------------------------------------
+    #[verifier::external_body]
+    pub struct GenericArgs { x: u8 }
+    #[verifier::external_body]
+    pub struct FieldValue { x: u8 }
+    #[verifier::external_body]
+    pub struct KVEntry { x: u8 }
+
+    /// C50, create: the new object's blueprint lives in the package of the running code, and (if it turns out to be an
+    /// inner object) the only outer object it can be attached to is the one the running code acts for
+    pub open spec fn allowed_create(actor: Actor, blueprint_id: BlueprintId, instance_context: Option<InstanceContext>) -> bool {
+        &&& running_blueprint(actor) matches Some(own) && own.package_address == blueprint_id.package_address
+        &&& match acting_outer_object(actor) { Some(o) => instance_context == Some(InstanceContext { outer_object: o }), None => instance_context is None }
+    }
+    /// what new_object_internal creates (ASSUMED, see there): an Owned object of exactly the requested blueprint whose
+    /// outer object, if any, is the instance context's
+    pub open spec fn created_info_ok(info: ObjectInfo, blueprint_id: BlueprintId, instance_context: Option<InstanceContext>) -> bool {
+        &&& info.blueprint_info.blueprint_id == blueprint_id
+        &&& info.object_type is Owned
+        &&& info.blueprint_info.outer_obj_info matches super::unit::OuterObjectInfo::Some { outer_object }
+                ==> instance_context == Some(InstanceContext { outer_object })
+    }
+    impl<'a, Y: SystemBasedKernelApi> SystemService<'a, Y> {
+        /// system.rs new_object_internal -- NOT under contract (schema validation, id allocation, kernel_create_node).
+        /// It is the SENSITIVE CALLEE of `new_object`: its precondition is property C50 (create).
+        #[verifier::external_body]
+        pub fn new_object_internal(&mut self, blueprint_id: &BlueprintId, features: Vec<&str>, instance_context: Option<InstanceContext>,
+                generic_args: GenericArgs, fields: IndexMap<u8, FieldValue>, kv_entries: IndexMap<u8, IndexMap<Vec<u8>, KVEntry>>) -> (r: Result<NodeId, RuntimeError>)
+            requires allowed_create(old(self).api.st().actor, *blueprint_id, instance_context)
+            ensures
+                *final(final(self).api) == *final(old(self).api),
+                final(self).api.st().actor == old(self).api.st().actor,
+                r matches Ok(n) ==> !old(self).api.st().type_info.contains_key(n)
+                    && final(self).api.st().type_info.contains_key(n)
+                    && final(self).api.st().type_info.remove(n) =~= old(self).api.st().type_info
+                    && (final(self).api.st().type_info[n] matches TypeInfoSubstate::Object(info) && created_info_ok(info, *blueprint_id, instance_context)),
+                r is Err ==> final(self).api.st() == old(self).api.st(),
+        { unimplemented!() }
     }
 
     /// system/type_info.rs: reads the TypeInfo substate of a node (open, read, close). ASSUMED: net effect nil.
@@ -232,6 +482,52 @@ pub mod env {
             ensures final(api).st() == old(api).st(),
                     r matches Ok(t) ==> old(api).st().type_info.contains_key(*receiver) && t == old(api).st().type_info[*receiver],
                     r matches Err(e) ==> e is Environment,
+        { unimplemented!() }
+    }
+
+    impl<'a, Y: SystemBasedKernelApi> SystemService<'a, Y> {
+        /// kernel_api.rs: PROVIDED method of KernelSubstateApi (= kernel_open_substate_with_default with `None::<fn() -> _>`, which
+        /// SystemService forwards to self.api); not extracted (fn-pointer type). Same contract as the kernel's.
+        #[verifier::external_body]
+        pub fn kernel_open_substate(&mut self, node_id: &NodeId, partition_num: PartitionNumber, substate_key: &SubstateKey,
+                flags: LockFlags, lock_data: SystemLockData) -> (r: Result<SubstateHandle, RuntimeError>)
+            ensures
+                *final(final(self).api) == *final(old(self).api),
+                same_but_handles(old(self).api.st(), final(self).api.st()),
+                r matches Ok(h) ==> !old(self).api.st().handles.contains_key(h)
+                    && final(self).api.st().handles == old(self).api.st().handles.insert(h, (*node_id, partition_num, *substate_key))
+                    && old(self).api.st().type_info.contains_key(*node_id),
+                r matches Err(e) ==> e is Environment && final(self).api.st() == old(self).api.st(),
+        { unimplemented!() }
+    }
+
+    impl<'a, Y: SystemBasedKernelApi> SystemService<'a, Y> {
+        /// system.rs allocate_global_address (kernel_allocate_node_id + prepare_global_address), NOT under contract. ASSUMED:
+        /// creates two FRESH nodes, a phantom at the new address recording `blueprint_id` and a reservation pointing at it.
+        /// (No access check here: anybody may reserve an address for any blueprint; the check is at globalize time.)
+        #[verifier::external_body]
+        pub fn allocate_global_address(&mut self, blueprint_id: BlueprintId) -> (r: Result<(GlobalAddressReservation, GlobalAddress), RuntimeError>)
+            ensures
+                *final(final(self).api) == *final(old(self).api),
+                final(self).api.st().actor == old(self).api.st().actor,
+                final(self).api.st().consumed == old(self).api.st().consumed,
+                r matches Ok(t) ==> !old(self).api.st().type_info.contains_key(t.0.0.0) && !old(self).api.st().type_info.contains_key(t.1.0)
+                    && t.0.0.0 != t.1.0
+                    && final(self).api.st().type_info == old(self).api.st().type_info
+                        .insert(t.1.0, TypeInfoSubstate::GlobalAddressPhantom(GlobalAddressPhantom { blueprint_id }))
+                        .insert(t.0.0.0, TypeInfoSubstate::GlobalAddressReservation(t.1)),
+                r matches Err(e) ==> e is Environment && final(self).api.st() == old(self).api.st(),
+        { unimplemented!() }
+    }
+
+    /// what is cut from globalize_with_address_internal by @drop-tail (after kernel_create_node_from succeeded): rewriting
+    /// the new global node's type info to ObjectType::Global{modules} and dropping the emptied shells of `node_id` / the modules
+    impl<'a, Y: SystemBasedKernelApi> SystemService<'a, Y> {
+        #[verifier::external_body]
+        pub fn globalize_tail(&mut self, node_id: NodeId, modules: IndexMap<AttachedModuleId, NodeId>, object_info: ObjectInfo, global_address: GlobalAddress) -> (r: Result<GlobalAddress, RuntimeError>)
+            ensures *final(final(self).api) == *final(old(self).api),
+                    final(self).api.st().actor == old(self).api.st().actor,
+                    r matches Ok(a) ==> a == global_address,
         { unimplemented!() }
     }
 
@@ -260,6 +556,12 @@ pub mod unit {
     /*@item radix-engine-interface/src/types/object_and_kvstore.rs :: struct ObjectInfo
     @derive
     @*/
+    /*@item radix-engine-interface/src/api/object_api.rs :: enum ModuleId
+    @derive Clone, Copy
+    @*/
+    /*@item radix-engine-interface/src/api/object_api.rs :: enum AttachedModuleId
+    @derive Clone, Copy
+    @*/
     /*@item radix-engine/src/system/actor.rs :: struct InstanceContext
     @derive
     @*/
@@ -281,6 +583,15 @@ pub mod unit {
     /*@item radix-engine/src/errors.rs :: struct InvalidDropAccess
     @derive
     @*/
+    /*@item radix-engine/src/errors.rs :: struct InvalidGlobalizeAccess
+    @derive
+    @*/
+    /*@item radix-engine/src/errors.rs :: struct InvalidModuleType
+    @derive
+    @*/
+    /*@item radix-engine/src/errors.rs :: enum CannotGlobalizeError
+    @derive
+    @*/
     /*@item radix-engine/src/system/system.rs :: struct SystemService
     @*/
 
@@ -289,12 +600,73 @@ pub mod unit {
         @sig
             ensures ret == (self.object_type is Global)
         @*/
+        /*@fn radix-engine-interface/src/types/object_and_kvstore.rs :: impl ObjectInfo :: fn try_get_outer_object
+        @sig
+            ensures ret == outer_of(*self)
+        @*/
+    }
+    // ---- ModuleId <-> AttachedModuleId conversions (radix-engine-interface/src/api/object_api.rs) ------
+    pub open spec fn module_of_attached(val: AttachedModuleId) -> ModuleId {
+        match val { AttachedModuleId::Metadata => ModuleId::Metadata, AttachedModuleId::Royalty => ModuleId::Royalty, AttachedModuleId::RoleAssignment => ModuleId::RoleAssignment }
+    }
+    pub open spec fn attached_of_module(val: ModuleId) -> Option<AttachedModuleId> {
+        match val { ModuleId::Main => None, ModuleId::Metadata => Some(AttachedModuleId::Metadata), ModuleId::Royalty => Some(AttachedModuleId::Royalty), ModuleId::RoleAssignment => Some(AttachedModuleId::RoleAssignment) }
+    }
+    impl vstd::std_specs::convert::FromSpecImpl<AttachedModuleId> for ModuleId {
+        open spec fn obeys_from_spec() -> bool { true }
+        open spec fn from_spec(val: AttachedModuleId) -> Self { module_of_attached(val) }
+    }
+    impl From<AttachedModuleId> for ModuleId {
+        /*@fn radix-engine-interface/src/api/object_api.rs :: impl From<AttachedModuleId> for ModuleId :: fn from
+        @sig
+            ensures ret == module_of_attached(val)
+        @*/
+    }
+    impl vstd::std_specs::convert::FromSpecImpl<ModuleId> for Option<AttachedModuleId> {
+        open spec fn obeys_from_spec() -> bool { true }
+        open spec fn from_spec(val: ModuleId) -> Self { attached_of_module(val) }
+    }
+    impl From<ModuleId> for Option<AttachedModuleId> {
+        /*@fn radix-engine-interface/src/api/object_api.rs :: impl From<ModuleId> for Option<AttachedModuleId> :: fn from
+        @sig
+            ensures ret == attached_of_module(val)
+        @*/
+    }
+    impl PartitionNumber {
+        /*@fn radix-common/src/types/node_and_substate.rs :: impl PartitionNumber :: fn at_offset
+        @sig
+            ensures ret == (if self.0 + offset.0 <= 255 { Some(PartitionNumber((self.0 + offset.0) as u8)) } else { None })
+        @*/
+    }
+    impl ModuleId {
+        /*@fn radix-engine-interface/src/api/object_api.rs :: impl ModuleId :: fn base_partition_num
+        @sig
+            ensures ret.0 <= 64
+        @*/
+    }
+    impl MethodType {
+        /*@fn radix-engine/src/system/actor.rs :: impl MethodType :: fn module_id
+        @sig
+            ensures ret == (match *self { MethodType::Module(m) => module_of_attached(m), _ => ModuleId::Main })
+        @*/
     }
     impl AttachedModuleId {
         /*@fn radix-engine-interface/src/api/object_api.rs :: impl AttachedModuleId :: fn static_blueprint
         @sig
             ensures ret == module_blueprint(*self)
         @*/
+    }
+    pub open spec fn outer_of(info: ObjectInfo) -> Option<GlobalAddress> {
+        match info.blueprint_info.outer_obj_info { OuterObjectInfo::Some { outer_object } => Some(outer_object), OuterObjectInfo::None => None }
+    }
+    /// C50, state: "the current actor's own object" -- the receiver of the running method together with the module
+    /// the method belongs to (None = the object's own blueprint state), or the receiver of a blueprint hook
+    pub open spec fn own_object(a: Actor) -> Option<(NodeId, Option<AttachedModuleId>)> {
+        match a {
+            Actor::Method(m) => Some((m.node_id, match m.method_type { MethodType::Module(x) => Some(x), _ => None })),
+            Actor::BlueprintHook(h) => match h.receiver { Some(n) => Some((n, None)), None => None },
+            _ => None,
+        }
     }
     impl MethodActor {
         /*@fn radix-engine/src/system/actor.rs :: impl MethodActor :: fn get_blueprint_id
@@ -307,6 +679,10 @@ pub mod unit {
         @sig
             ensures match acting_outer_object(*self) { Some(o) => ret == Some(InstanceContext { outer_object: o }), None => ret is None }
         @*/
+        /*@fn radix-engine/src/system/actor.rs :: impl Actor :: fn get_object_id
+        @sig
+            ensures ret == own_object(*self)
+        @*/
         /*@fn radix-engine/src/system/actor.rs :: impl Actor :: fn blueprint_id
         @sig
             ensures ret == running_blueprint(*self)
@@ -316,6 +692,89 @@ pub mod unit {
             ensures ret == (match running_blueprint(*self) { Some(id) => Some(id.package_address), None => None })
         @closure 1 := |id: BlueprintId| -> (r: PackageAddress) ensures r == id.package_address
         @*/
+    }
+
+    /*@item radix-engine/src/system/system.rs :: enum ActorStateRef
+    @derive
+    @subst <<enum ActorStateRef>> => <<pub enum ActorStateRef>> why: visibility only -- the private enum is mentioned in pub spec fns of this unit
+    @*/
+    pub open spec fn actor_state_ref(value: ActorStateHandle) -> Result<ActorStateRef, RuntimeError> {
+        if value == 0u32 { Ok(ActorStateRef::SELF) } else if value == 1u32 { Ok(ActorStateRef::OuterObject) }
+        else { Err(RuntimeError::SystemError(SystemError::InvalidActorStateHandle)) }
+    }
+    impl vstd::std_specs::convert::TryFromSpecImpl<ActorStateHandle> for ActorStateRef {
+        open spec fn obeys_try_from_spec() -> bool { true }
+        open spec fn try_from_spec(value: ActorStateHandle) -> Result<ActorStateRef, RuntimeError> { actor_state_ref(value) }
+    }
+    impl TryFrom<ActorStateHandle> for ActorStateRef {
+        type Error = RuntimeError;
+        /*@fn radix-engine/src/system/system.rs :: impl TryFrom<ActorStateHandle> for ActorStateRef :: fn try_from
+        @sig
+            ensures ret == actor_state_ref(value)
+        @*/
+    }
+    /// C50, state: an actor state handle designates ONLY (SELF) the current actor's own object, with the module the running
+    /// method belongs to, or (OUTER_OBJECT) the outer object recorded in the type info of the actor's own object (main
+    /// module only) -- never a node id chosen by the caller
+    pub open spec fn resolves_to(s: KState, r: ActorStateRef, id: (NodeId, Option<AttachedModuleId>)) -> bool {
+        own_object(s.actor) matches Some(own) && match r {
+            ActorStateRef::SELF => id == own,
+            ActorStateRef::OuterObject => own.1 is None && id.1 is None && s.type_info.contains_key(own.0)
+                && (s.type_info[own.0] matches TypeInfoSubstate::Object(info) && outer_of(info) == Some(GlobalAddress(id.0))),
+        }
+    }
+    /// C50, create: what `new_object(blueprint_ident, ..)` may bring into existence for the running actor
+    pub open spec fn created_by(info: ObjectInfo, actor: Actor, blueprint_ident: &str) -> bool {
+        &&& running_blueprint(actor) matches Some(own)
+                && info.blueprint_info.blueprint_id == (BlueprintId { package_address: own.package_address, blueprint_name: string_of(blueprint_ident) })
+        &&& info.object_type is Owned
+        &&& info.blueprint_info.outer_obj_info matches OuterObjectInfo::Some { outer_object } ==> acting_outer_object(actor) == Some(outer_object)
+    }
+
+    // ---- (2) globalize ------------------------------------------------------------------------------------
+    /// state invariant: an address reservation points at a live phantom node (prepare_global_address creates both)
+    pub open spec fn reservations_wf(s: KState) -> bool {
+        forall|n: NodeId| #[trigger] s.type_info.contains_key(n) ==> (s.type_info[n] matches TypeInfoSubstate::GlobalAddressReservation(a)
+            ==> s.type_info.contains_key(a.0) && s.type_info[a.0] is GlobalAddressPhantom)
+    }
+    /// the address and blueprint a reservation node stands for
+    pub open spec fn reservation_target(s: KState, res: NodeId) -> Option<(GlobalAddress, BlueprintId)> {
+        if s.type_info.contains_key(res) && (s.type_info[res] matches TypeInfoSubstate::GlobalAddressReservation(a)
+            && s.type_info.contains_key(a.0) && s.type_info[a.0] is GlobalAddressPhantom) {
+            Some((s.type_info[res]->GlobalAddressReservation_0, s.type_info[s.type_info[res]->GlobalAddressReservation_0.0]->GlobalAddressPhantom_0.blueprint_id))
+        } else { None }
+    }
+    pub open spec fn module_ok(s: KState, e: (AttachedModuleId, NodeId)) -> bool {
+        s.type_info.contains_key(e.1) && (s.type_info[e.1] matches TypeInfoSubstate::Object(mi) && mi.blueprint_info.blueprint_id == module_blueprint(e.0))
+    }
+    /// C50, globalize, as a statement about a SUCCESSFUL call: the reservation was made for blueprint `bp` at `addr`, the
+    /// running code belongs to bp's package, the globalized node is a not-yet-global object of exactly blueprint bp, and
+    /// every attached module node is an object of the static blueprint of the module it is attached as
+    pub open spec fn globalize_authorized(s: KState, node_id: NodeId, mods: Seq<(AttachedModuleId, NodeId)>, res: NodeId, addr: GlobalAddress) -> bool {
+        &&& reservation_target(s, res) matches Some(t) && t.0 == addr
+                && Some(t.1.package_address) == actor_package(s.actor)
+                && s.type_info.contains_key(node_id)
+                && (s.type_info[node_id] matches TypeInfoSubstate::Object(info) && info.object_type is Owned && info.blueprint_info.blueprint_id == t.1)
+        &&& forall|i: int| 0 <= i < mods.len() ==> module_ok(s, #[trigger] mods[i])
+    }
+    /// C50, globalize, seen from the public entry point: whatever reservation was used, a successful globalize means the
+    /// node was a not-yet-global object of the running code's own package, and the modules were module-blueprint objects
+    pub open spec fn globalized_by_owner(s: KState, node_id: NodeId, mods: Seq<(AttachedModuleId, NodeId)>) -> bool {
+        &&& s.type_info.contains_key(node_id) && (s.type_info[node_id] matches TypeInfoSubstate::Object(info) && info.object_type is Owned
+                && Some(info.blueprint_info.blueprint_id.package_address) == actor_package(s.actor))
+        &&& forall|i: int| 0 <= i < mods.len() ==> module_ok(s, #[trigger] mods[i])
+    }
+    /// loop-carried facts of globalize_with_address_internal: actor fixed, the package check has passed
+    pub open spec fn pre_ok(s0: KState, s1: KState, res: NodeId) -> bool {
+        &&& s1.actor == s0.actor
+        &&& !(reservation_target(s0, res) matches Some(t) && Some(t.1.package_address) != actor_package(s0.actor))
+    }
+    pub open spec fn invalid_globalize_error(bp: BlueprintId, actor: Actor) -> RuntimeError {
+        RuntimeError::SystemError(SystemError::InvalidGlobalizeAccess(Box::new(InvalidGlobalizeAccess {
+            package_address: bp.package_address,
+            blueprint_name: bp.blueprint_name,
+            actor_package: actor_package(actor),
+        })))
     }
 
     pub open spec fn invalid_drop_error(node_id: NodeId, info: ObjectInfo, actor: Actor) -> RuntimeError {
@@ -342,15 +801,179 @@ pub mod unit {
                     ret matches Err(e) ==> e is Environment || (e == RuntimeError::SystemError(SystemError::NotAnObject)
                         && old(self).api.st().type_info.contains_key(*node_id) && !(old(self).api.st().type_info[*node_id] is Object)),
         @*/
+        // ---- forwarding impls KernelNodeApi / KernelSubstateApi for SystemService: same (sensitive) contracts ----
+        /*@fn radix-engine/src/system/system.rs :: impl<'a, Y: SystemBasedKernelApi> KernelNodeApi for SystemService<'a, Y> :: fn kernel_drop_node
+        @sig
+            requires drop_permitted(old(self).api.st(), *node_id)
+            ensures
+                *final(final(self).api) == *final(old(self).api),
+                final(self).api.st().actor == old(self).api.st().actor,
+                final(self).api.st().handles == old(self).api.st().handles,
+                final(self).api.st().consumed == old(self).api.st().consumed,
+                ret matches Ok(d) ==> old(self).api.st().type_info.contains_key(*node_id)
+                    && final(self).api.st().type_info == old(self).api.st().type_info.remove(*node_id)
+                    && dropped_type_info(d) == Some(old(self).api.st().type_info[*node_id]),
+                ret matches Err(e) ==> e is Environment && final(self).api.st() == old(self).api.st(),
+        @*/
+        /*@fn radix-engine/src/system/system.rs :: impl<'a, Y: SystemBasedKernelApi> KernelNodeApi for SystemService<'a, Y> :: fn kernel_create_node_from
+        @sig
+            requires globalize_permitted(old(self).api.st(), partitions@)
+            ensures
+                *final(final(self).api) == *final(old(self).api),
+                final(self).api.st().actor == old(self).api.st().actor,
+                final(self).api.st().handles == old(self).api.st().handles,
+                final(self).api.st().type_info == old(self).api.st().type_info,
+                ret is Ok ==> (forall|n: NodeId| final(self).api.st().consumed.contains(n) <==> old(self).api.st().consumed.contains(n)
+                                || exists|p: PartitionNumber| #[trigger] partitions@.contains_key(p) && partitions@[p].0 == n),
+                ret matches Err(e) ==> e is Environment && final(self).api.st() == old(self).api.st(),
+        @*/
+        /*@fn radix-engine/src/system/system.rs :: impl<'a, Y: SystemBasedKernelApi> KernelSubstateApi<SystemLockData> for SystemService<'a, Y> :: fn kernel_read_substate
+        @sig
+            ensures
+                *final(final(self).api) == *final(old(self).api),
+                final(self).api.st() == old(self).api.st(),
+                ret matches Ok(v) ==> old(self).api.st().handles.contains_key(lock_handle)
+                    && ({ let id = old(self).api.st().handles[lock_handle];
+                          id.1 == TYPE_INFO_FIELD_PARTITION && id.2 == SubstateKey::Field(0u8) && old(self).api.st().type_info.contains_key(id.0)
+                            ==> ti_of(*v) == Some(old(self).api.st().type_info[id.0]) }),
+                ret matches Err(e) ==> e is Environment,
+        @*/
+        /*@fn radix-engine/src/system/system.rs :: impl<'a, Y: SystemBasedKernelApi> KernelSubstateApi<SystemLockData> for SystemService<'a, Y> :: fn kernel_close_substate
+        @sig
+            ensures
+                *final(final(self).api) == *final(old(self).api),
+                same_but_handles(old(self).api.st(), final(self).api.st()),
+                ret is Ok ==> final(self).api.st().handles == old(self).api.st().handles.remove(lock_handle),
+                ret matches Err(e) ==> e is Environment && final(self).api.st() == old(self).api.st(),
+        @*/
+
+        // ---- (2) globalize ---------------------------------------------------------------------------------
+        /*@fn radix-engine/src/system/system.rs :: impl<'a, Y: SystemBasedKernelApi> SystemService<'a, Y> :: fn globalize_with_address_internal
+        @sig
+            requires
+                reservations_wf(old(self).api.st()),
+                // the node handed in as reservation is not an object (callers: `globalize` checks it -- proved below)
+                !(old(self).api.st().type_info.contains_key(global_address_reservation.0.0) && old(self).api.st().type_info[global_address_reservation.0.0] is Object),
+                old(self).api.st().consumed.is_empty(),
+            ensures
+                *final(final(self).api) == *final(old(self).api),
+                final(self).api.st().actor == old(self).api.st().actor,
+                ret matches Ok(addr) ==> globalize_authorized(old(self).api.st(), node_id, modules.entries(), global_address_reservation.0.0, addr),
+                // a valid reservation for a blueprint of ANOTHER package: InvalidGlobalizeAccess (unless the kernel failed first)
+                (reservation_target(old(self).api.st(), global_address_reservation.0.0) matches Some(t) && Some(t.1.package_address) != actor_package(old(self).api.st().actor))
+                    ==> (ret matches Err(e) && (e is Environment || e == invalid_globalize_error(reservation_target(old(self).api.st(), global_address_reservation.0.0)->Some_0.1, old(self).api.st().actor))),
+        @entry
+            let ghost s0 = self.api.st();
+            let ghost res = global_address_reservation.0.0;
+            let ghost main_node = node_id;
+        @closure 1 := |x: &BTreeMap<SubstateKey, IndexedScryptoValue>| -> (r: Option<&IndexedScryptoValue>) ensures match r { Some(v) => x@.contains_key(SubstateKey::Field(0u8)) && *v == x@[SubstateKey::Field(0u8)], None => !x@.contains_key(SubstateKey::Field(0u8)) }
+        @closure 2 := |x: &IndexedScryptoValue| -> (r: Option<TypeInfoSubstate>) ensures r == ti_of(*x)
+        @before <<let mut partitions>> #1
+            let ghost s1 = self.api.st();
+            proof {
+                assert(s1.type_info == s0.type_info.remove(res));
+                assert(globalize_source_ok(s1, node_id));
+            }
+        @loop 1
+            invariant
+                num_main_partitions <= 192,
+                self.api.st() == s1, *final(self.api) == *final(old(self).api), pre_ok(s0, s1, res), s0 == old(self).api.st(), res == global_address_reservation.0.0,
+                globalize_source_ok(s1, node_id),
+                globalize_permitted(s1, partitions@),
+        @loop 2 iter it
+            invariant
+                self.api.st() == s1, *final(self.api) == *final(old(self).api), pre_ok(s0, s1, res), s0 == old(self).api.st(), res == global_address_reservation.0.0,
+                globalize_permitted(s1, partitions@),
+                it.seq().len() == modules.entries().len(),
+                forall|i: int| 0 <= i < modules.entries().len() ==> *(#[trigger] it.seq()[i]).0 == modules.entries()[i].0 && *it.seq()[i].1 == modules.entries()[i].1,
+                forall|i: int| 0 <= i < it.index@ ==> module_ok(s1, #[trigger] modules.entries()[i]),
+        @before <<let module_id: ModuleId>> #1
+            proof {
+                assert(blueprint_id == module_blueprint(*module_id));
+                assert(is_module_blueprint(blueprint_id));
+                assert(s1.type_info.contains_key(*node_id));
+                assert(globalize_source_ok(s1, *node_id));
+                assert(module_ok(s1, (*module_id, *node_id)));
+            }
+        @loop 3
+            invariant
+                num_logical_partitions <= 192, module_base_partition.0 <= 64,
+                self.api.st() == s1, *final(self.api) == *final(old(self).api), pre_ok(s0, s1, res), s0 == old(self).api.st(), res == global_address_reservation.0.0,
+                globalize_source_ok(s1, *node_id),
+                globalize_permitted(s1, partitions@),
+        @drop-tail <<self.kernel_create_node_from(global_address.into(), partitions)?;>> #1 => return self.globalize_tail(node_id, modules, object_info, global_address);
+        @*/
+
+        /*@fn radix-engine/src/system/system.rs :: impl<'a, Y: SystemBasedKernelApi> SystemObjectApi<RuntimeError> for SystemService<'a, Y> :: fn get_reservation_address
+        @sig
+            ensures final(self).api.st() == old(self).api.st(),
+                    *final(final(self).api) == *final(old(self).api),
+                    ret matches Ok(a) ==> old(self).api.st().type_info.contains_key(*node_id)
+                        && old(self).api.st().type_info[*node_id] == TypeInfoSubstate::GlobalAddressReservation(a),
+                    ret matches Err(e) ==> e is Environment || e == RuntimeError::SystemError(SystemError::NotAnAddressReservation),
+        @*/
+        /// the public entry point (WASM `globalize_object` lands here)
+        /*@fn radix-engine/src/system/system.rs :: impl<'a, Y: SystemBasedKernelApi> SystemObjectApi<RuntimeError> for SystemService<'a, Y> :: fn globalize
+        @sig
+            requires
+                reservations_wf(old(self).api.st()),
+                old(self).api.st().consumed.is_empty(),
+            ensures
+                *final(final(self).api) == *final(old(self).api),
+                final(self).api.st().actor == old(self).api.st().actor,
+                ret matches Ok(addr) ==> globalized_by_owner(old(self).api.st(), node_id, modules.entries())
+                    && (address_reservation matches Some(r) ==> globalize_authorized(old(self).api.st(), node_id, modules.entries(), r.0.0, addr)),
+                // a node that is not an address reservation is never consumed as one
+                (address_reservation matches Some(r) && old(self).api.st().type_info.contains_key(r.0.0) && !(old(self).api.st().type_info[r.0.0] is GlobalAddressReservation))
+                    ==> (ret matches Err(e) && (e is Environment || e == RuntimeError::SystemError(SystemError::NotAnAddressReservation)))
+                        && final(self).api.st() == old(self).api.st(),
+        @*/
+
+        // ---- (3) actor state handles: SELF / OUTER_OBJECT resolve to the actor's own object / its outer object ----
+        /*@fn radix-engine/src/system/system.rs :: impl<'a, Y: SystemBasedKernelApi> SystemObjectApi<RuntimeError> for SystemService<'a, Y> :: fn get_outer_object
+        @sig
+            ensures final(self).api.st() == old(self).api.st(),
+                    *final(final(self).api) == *final(old(self).api),
+                    ret matches Ok(a) ==> old(self).api.st().type_info.contains_key(*node_id)
+                        && (old(self).api.st().type_info[*node_id] matches TypeInfoSubstate::Object(info) && outer_of(info) == Some(a)),
+        @*/
+        /*@fn radix-engine/src/system/system.rs :: impl<'a, Y: SystemBasedKernelApi> SystemService<'a, Y> :: fn get_actor_object_id
+        @sig
+            ensures final(self).api.st() == old(self).api.st(),
+                    *final(final(self).api) == *final(old(self).api),
+                    ret matches Ok(id) ==> resolves_to(old(self).api.st(), actor_object_type, id),
+                    // SELF never fails for an actor that has an object
+                    actor_object_type is SELF && own_object(old(self).api.st().actor) is Some ==> ret is Ok,
+                    own_object(old(self).api.st().actor) is None ==> ret == Err::<(NodeId, Option<AttachedModuleId>), RuntimeError>(RuntimeError::SystemError(SystemError::NotAnObject)),
+        @closure 1 := || -> (r: RuntimeError) ensures r == RuntimeError::SystemError(SystemError::NotAnObject)
+        @*/
+
+        // ---- (4) new_object: blueprint from the ACTOR'S package, instance context from the ACTOR ---------------
+        /*@fn radix-engine/src/system/system.rs :: impl<'a, Y: SystemBasedKernelApi> SystemObjectApi<RuntimeError> for SystemService<'a, Y> :: fn new_object
+        @sig
+            ensures
+                *final(final(self).api) == *final(old(self).api),
+                final(self).api.st().actor == old(self).api.st().actor,
+                running_blueprint(old(self).api.st().actor) is None
+                    ==> ret == Err::<NodeId, RuntimeError>(RuntimeError::SystemError(SystemError::NoPackageAddress)),
+                ret is Err ==> final(self).api.st() == old(self).api.st(),
+                ret matches Ok(n) ==> !old(self).api.st().type_info.contains_key(n)
+                    && final(self).api.st().type_info.contains_key(n)
+                    && final(self).api.st().type_info.remove(n) =~= old(self).api.st().type_info
+                    && (final(self).api.st().type_info[n] matches TypeInfoSubstate::Object(info)
+                        && created_by(info, old(self).api.st().actor, blueprint_ident)),
+        @closure 1 := |b: BlueprintId| -> (r: PackageAddress) ensures r == b.package_address
+        @*/
+
         /*@fn radix-engine/src/system/system.rs :: impl<'a, Y: SystemBasedKernelApi> SystemObjectApi<RuntimeError> for SystemService<'a, Y> :: fn drop_object
         @sig
             ensures
-                final(self).api.st().actor == old(self).api.st().actor,
-                *final(final(self).api) == *final(old(self).api),
                 ret is Ok ==> old(self).api.st().type_info.contains_key(*node_id)
                     && (old(self).api.st().type_info[*node_id] matches TypeInfoSubstate::Object(info) && allowed_drop(info, old(self).api.st().actor))
-                    && final(self).api.st().type_info == old(self).api.st().type_info.remove(*node_id),
-                ret matches Err(e) ==> final(self).api.st() == old(self).api.st() && (
+                    && final(self).api.st().type_info == old(self).api.st().type_info.remove(*node_id)
+                    && final(self).api.st().actor == old(self).api.st().actor
+                    && *final(final(self).api) == *final(old(self).api),
+                ret matches Err(e) ==> (
                     e is Environment
                     || (e == RuntimeError::SystemError(SystemError::NotAnObject)
                         && old(self).api.st().type_info.contains_key(*node_id) && !(old(self).api.st().type_info[*node_id] is Object))
